@@ -83,7 +83,7 @@ def c19_3(ctx):
     r1 = [r for r in inner[0].body if isinstance(r, ast.Return)]
     if not r1 or N(r1[0].value) != '%s[%s]' % (value, key):
         ctx.fail(fk, inner[0], 'a matching companion dict is not indexed by the key')
-    r2 = [r for r in inner[0].orelse if isinstance(r, ast.Return)]
+    r2 = [r for r in else_of(inner[0]) if isinstance(r, ast.Return)]
     if not r2 or N(r2[0].value) != NS('type(%s)({k: _item_by_key(v, %s, %s, i) for k, v in %s.items()})' % (value, key, keys, value)):
         ctx.fail(fk, inner[0], 'a non-matching companion dict is not searched recursively for matching members')
     last = returns_of(fk.node)
